@@ -145,6 +145,13 @@ class SimPopen:
         err = b.get('stderr', '')
         if b.get('cat'):
             out = stdin_txt + out
+        if b.get('cat_last_arg_file') and not isinstance(args, str):
+            # e.g. a preprocessor: prints the file named by its last argument (relative to its cwd)
+            try:
+                with open(os.path.join(eff_cwd, os.fspath(list(args)[-1])), 'rb') as f:
+                    out = f.read().decode('utf-8', errors='surrogateescape') + out
+            except OSError:
+                pass
         if b.get('varying'):
             out = out.replace('{n}', str(n))
             err = err.replace('{n}', str(n))
